@@ -3340,8 +3340,14 @@ RCP<const Basic> beta(const RCP<const Basic> &x, const RCP<const Basic> &y)
         if (is_a<const Rational>(*y)
             and get_den((down_cast<const Rational &>(*y)).as_rational_class())
                     == 2) {
+            RCP<const Basic> sum = add(x, y);
+            if (is_a<Integer>(*sum)
+                and not down_cast<const Integer &>(*sum).is_positive()) {
+                // gamma(x + y) has a pole, gamma(x) * gamma(y) is finite
+                return zero;
+            }
             return div(mul(gamma_multiple_2(x), gamma_multiple_2(y)),
-                       gamma_positive_int(add(x, y)));
+                       gamma_positive_int(sum));
         }
     }
     return Beta::from_two_basic(x, y);
